@@ -102,6 +102,8 @@ def main():
                 print(rows[-1], flush=True)
         finally:
             revert()
+    # leave the harness and the tool built from the clean tree (the checks' NOBUILD shortcut would otherwise use a changed one)
+    if clean(): build_all()
     tag = 'benign-seeded' if '--benign-seeded' in args else 'benign' if '--benign' in args else ('seeded' if '--seeded' in args and only else 'mutants')
     if only and tag == 'mutants': tag = 'partial'
     if '--tag' in args: tag = args[args.index('--tag')+1]
